@@ -20,6 +20,13 @@ FORMS = {
     "defineProperty": "(Object.defineProperty(R, n, {get: function(){ return 7 }}), R[n])",
 }
 CALL_FORMS = {"call", "new"}
+# prelude of the probe programs: K(tag, v...) classifies every value given; CB is a callback that reports this and all arguments
+PROBE_PRE = ("function K(tag){ for (var i=1;i<arguments.length;i++) __kind(tag, arguments[i]); if (arguments.length<2) __kind(tag) } "
+             "function CBT(tag, ret){ return function(){ __kind(tag + ' this', this); for (var i=0;i<arguments.length;i++) __kind(tag + ' arg', arguments[i]); "
+             "if (arguments.length>0) { var a0 = arguments[0]; __kind(tag + ' arg', a0) } return ret } } "
+             "function EACH(tag, r){ __kind(tag, r); if (r && typeof r === 'object') { for (var k in r) __kind(tag + ' member', r[k]); "
+             "if (typeof r.length === 'number') for (var i=0;i<r.length;i++) __kind(tag + ' element', r[i]) } } ")
+
 MASK = "«NAME»"
 
 
@@ -104,6 +111,73 @@ def run_form(api, recv, form, name):
     return out, len(calls), bad_args
 
 
+def render_probe(q):
+    """program for one probe record of C03.tla!Probes (prelude PROBE_PRE defines K, CBT, EACH)"""
+    fam = q["fam"]
+    t = "'" + "/".join("%s" % q[k] for k in sorted(q) if k != "fam").replace("\\", "\\\\").replace("'", "\\'") + "'"
+    if fam == "cb":
+        api, recv, ret = q["api"], q["recv"], q["ret"]
+        if api in ("reduce", "reduceRight"):
+            return "var R = %s; EACH(%s, R.%s(CBT(%s, %s))); EACH(%s, R.%s(CBT(%s, %s), undefined));" % (recv, t, api, t, ret, t, api, t, ret)
+        return "var R = %s; EACH(%s, R.%s(CBT(%s, %s))); EACH(%s, R.%s(CBT(%s, %s), null)); EACH(%s, R);" % (recv, t, api, t, ret, t, api, t, ret, t)
+    if fam == "rxcb":
+        api, pat, subj = q["api"], q["pat"], q["subj"]
+        if api == "replace_strpat":
+            return "EACH(%s, '%s'.replace('%s', CBT(%s, 'z')));" % (t, subj, subj[:1], t)
+        return "EACH(%s, '%s'.%s(/%s/g, CBT(%s, 'z'))); EACH(%s, '%s'.replace(/%s/, CBT(%s, undefined)));" % (t, subj, api, pat, t, t, subj, pat, t)
+    if fam == "rxres":
+        api, pat, subj = q["api"], q["pat"], q["subj"]
+        e = {"exec": "/%s/.exec('%s')", "match": "'%(s)s'.match(/%(p)s/)", "match_g": "'%(s)s'.match(/%(p)s/g)",
+             "split": "'%(s)s'.split(/%(p)s/)", "split_lim": "'%(s)s'.split(/%(p)s/, 3)", "search": "'%(s)s'.search(/%(p)s/)",
+             "test": "/%(p)s/.test('%(s)s')", "exec_g_twice": "(function(){ var r = /%(p)s/g; r.exec('%(s)s'); var m = r.exec('%(s)s'); K(%(t)s, r.lastIndex); return m })()",
+             "exec_y": "(function(){ var r = /%(p)s/y; var m = r.exec('%(s)s'); K(%(t)s, r.lastIndex, r.source, r.flags); return m })()"}[api]
+        e = e % {"s": subj, "p": pat, "t": t} if "%(" in e else e % (pat, subj)
+        return "var m = %s; EACH(%s, m); if (m) { K(%s, m.index, m.input, m.groups); if (m.groups) EACH(%s, m.groups) }" % (e, t, t, t)
+    if fam == "conv":
+        u = q["use"]
+        o = "({valueOf: CBT(%s, 1), toString: CBT(%s, 's')})" % (t, t)
+        body = {"plus": "K(%s, +O, -O, O * 2)", "concat": "K(%s, '' + O, O + 'x', O + 1)", "join": "K(%s, [O, O].join('-'))",
+                "sort_default": "EACH(%s, [O, O, 3].sort())", "compare": "K(%s, O < 2, O == 1, O >= O)", "index": "K(%s, ({s: 5})[O], 'abc'[O], [7,8][O])",
+                "String": "K(%s, String(O), 'a'.concat(O), 'abc'.indexOf(O))", "Number": "K(%s, Number(O), Math.abs(O), parseInt(O), isNaN(O))",
+                "getter": "var G = { get p(){ return CBT(%s, 2).call(this) } }; K(%s, G.p)",
+                "setter": "var G = { set p(v){ CBT(%s, 2).call(this, v) } }; K(%s, (G.p = 5), G.p)",
+                "defprop_get": "var G = {}; Object.defineProperty(G, 'p', {get: CBT(%s, 2)}); K(%s, G.p, Object.create(G).p)",
+                "defprop_set": "var G = {}; Object.defineProperty(G, 'p', {set: CBT(%s, 2)}); K(%s, (G.p = 5), G.p)",
+                "in_loop": "for (var k in {a: 1}) { K(%s, k, +O) } for (var x of [O]) { K(%s, x, '' + x) }"}[u]
+        return "var O = %s; %s;" % (o, body.replace("%s", t))
+    if fam == "callf":
+        f = q["form"]
+        body = {"plain": "K(T, F(1, undefined))", "method": "var h = {m: F}; K(T, h.m(1), h['m']())", "call_undef": "K(T, F.call(undefined, 1), F.call())",
+                "call_null": "K(T, F.call(null, 1))", "call_prim": "K(T, F.call(5, 1), F.call('s'), F.call(true))", "call_obj": "K(T, F.call({a: 1}, undefined, null))",
+                "apply_undef": "K(T, F.apply(undefined), F.apply(undefined, undefined), F.apply(null, null))", "apply_arr": "K(T, F.apply({}, [1, undefined, null, [2]]))",
+                "apply_none": "K(T, F.apply())", "bind": "K(T, F.bind()(1), F.bind(null)(), F.bind(undefined)(2))", "bind_args": "K(T, F.bind({}, 1, undefined)(null, 3))",
+                "new": "K(T, new F(), new F)", "new_args": "K(T, new F(1, undefined, null))", "arrow": "var A = (a, b) => { K(T, a, b, this); return a }; K(T, A(1), A.call({}, 2), A.apply(null, [3]))"}[f]
+        return "var T = %s; var F = CBT(T, 9); %s;" % (t, body)
+    if fam == "none":
+        u = q["use"]
+        body = {"result": "K(T, hostnone(), hostnone(1, 2))", "call": "K(T, hostnone.call(null), hostnone.call())", "apply": "K(T, hostnone.apply(null, [1]), hostnone.apply())",
+                "bind": "K(T, hostnone.bind(null)(), hostnone.bind()(1))", "map": "EACH(T, [1, 2].map(hostnone))", "forEach": "K(T, [1].forEach(hostnone))",
+                "filter": "EACH(T, [1, 2].filter(hostnone))", "reduce": "K(T, [1, 2].reduce(hostnone), [1].reduce(hostnone, 0))", "sort": "EACH(T, [2, 1, 3].sort(hostnone))",
+                "find": "K(T, [1].find(hostnone), [1].findIndex(hostnone), [1].some(hostnone), [1].every(hostnone))",
+                "replace": "K(T, 'aba'.replace(/a/, hostnone), 'aba'.replace('a', hostnone))", "replaceAll": "K(T, 'aba'.replaceAll(/a/g, hostnone), 'aba'.replace(/a/g, hostnone))",
+                "stringify": "K(T, JSON.stringify({a: 1}, hostnone), JSON.stringify([1], hostnone))", "parse": "K(T, JSON.parse('[1,{\"a\":2}]', hostnone))",
+                "new": "K(T, new hostnone(), new hostnone(1))", "getter": "var G = {}; Object.defineProperty(G, 'p', {get: hostnone}); K(T, G.p, [G.p], G.p === undefined)",
+                "setter": "var G = {}; Object.defineProperty(G, 'p', {set: hostnone}); K(T, (G.p = 1), G.p)", "valueOf": "K(T, +{valueOf: hostnone}, 1 + {valueOf: hostnone})",
+                "toString": "K(T, '' + {toString: hostnone}, [{toString: hostnone}].join())", "toJSON": "K(T, JSON.stringify({toJSON: hostnone}), JSON.stringify([{toJSON: hostnone}]))",
+                "nested_arg": "K(T, [hostnone()], {a: hostnone()}.a, (function(a){ return a })(hostnone()))", "in_array": "EACH(T, [hostnone(), 1, hostnone()])",
+                "in_object": "EACH(T, {a: hostnone(), b: [hostnone()]})", "conditional": "K(T, hostnone() ? 1 : 2, hostnone() || 'd', hostnone() && 1, hostnone() === undefined, typeof hostnone())",
+                "return": "K(T, (function(){ return hostnone() })(), (() => hostnone())())"}[u]
+        return "var T = %s; try { %s } catch (e) { K(T, e) }" % (t, body)
+    if fam == "json":
+        u = q["use"]
+        body = {"reviver": "EACH(T, JSON.parse('{\"a\":[1,null,{\"b\":true}],\"c\":\"s\"}', function(k, v){ K(T, this, k, v); return v }))",
+                "replacer_fn": "K(T, JSON.stringify({a: [1, undefined, null], f: function(){}, u: undefined}, function(k, v){ K(T, this, k, v); return v }))",
+                "replacer_arr": "K(T, JSON.stringify({a: 1, b: {a: 2, c: 3}}, ['a', 'b']))", "toJSON": "K(T, JSON.stringify({toJSON: CBT(T, 5)}), JSON.stringify({k: {toJSON: CBT(T, undefined)}}))",
+                "toJSON_nested": "K(T, JSON.stringify([{toJSON: CBT(T, [1])}, new Date(0)]))", "indent": "K(T, JSON.stringify({a: [1]}, null, 2), JSON.stringify({a: 1}, undefined, '--'), JSON.stringify(undefined), JSON.stringify(function(){}))"}[u]
+        return "var T = %s; try { %s } catch (e) { K(T, e) }" % (t, body)
+    raise ValueError(fam)
+
+
 def is_ident(s):
     import re
     return re.match(r"^[A-Za-z_$][A-Za-z0-9_$]*$", s) is not None and s not in (
@@ -142,11 +216,28 @@ def driver(case, api):
             w = wire.to_wire(v, depth=11)      # shallow
             return w["k"] if w["k"] != "hostval" else "hostval:" + w.get("t", "")
 
+        PRODUCERS = {"LOAD_LOCAL", "LOAD_NAME", "LOAD_CELL", "LOAD_CLOSURE", "GET_PROP", "CALL", "CALL_METHOD", "NEW",
+                     "RETURN", "RETURN_UNDEFINED", "THIS"}
+        prev = [None]
+        tcache = set()
+
         def obs(kind, vm, op, arg, frame, _):
             if kind not in ("main", "cb"):
                 return
             nm = op.name
             st = vm.stack
+            # the value the previous instruction produced (a variable / property read, the result of a call to script or
+            # built-in code): from here on the script holds it.  Cached by host type: one classification per type and producer.
+            pv = prev[0]
+            prev[0] = nm
+            if pv in PRODUCERS and st:
+                v = st[-1]
+                tk = (type(v), pv)
+                if tk not in tcache:
+                    tcache.add(tk)
+                    kk = kind_of(v)
+                    if (kk, "after " + pv) not in seen:
+                        seen[(kk, "after " + pv)] = 1
             vals = ()
             if nm in ("STORE_NAME", "STORE_LOCAL", "STORE_CELL", "STORE_CLOSURE", "RETURN", "THROW") and st:
                 vals = (st[-1],)
@@ -198,6 +289,16 @@ def driver(case, api):
                     w = {"k": "none"}       # an exception instead of a value: C04 judges its class, not C03
                 res.append({"id": "ret:%s:%s" % (name, form), "kind": "ret", "v": embed_ok(prune(w))})
         return res
+    if k == "probe":
+        # a generated program hands every value under test to __kind (classified on the host side, exactly)
+        ctx = api.new_context(time_limit=10.0)
+        kinds = {}
+        ctx.set("hostfn", lambda *a: 1)
+        ctx.set("hostnone", lambda *a: None)
+        ctx.set("__kind", lambda tag, v=None, *rest: (kinds.setdefault((str(tag), kind_name(v)), 1), None)[1])
+        out = api.eval_outcome(ctx, PROBE_PRE + case["src"], wall=60.0, cap=5_000_000)
+        return [{"id": case["id"], "kind": "trace", "seen": [{"k": kk, "at": tag} for (tag, kk) in sorted(kinds)], "o": out["o"],
+                 "src": case["src"], "info": (out.get("type", "") + " " + out.get("msg", ""))[:120]}]
     if k == "call_grid":
         # every function-valued property found on the receiver (candidate names from the spec's list + harvest),
         # called with argument vectors over the value kinds: the kind of every result a script can hold
@@ -212,7 +313,11 @@ def driver(case, api):
                "try { f = R[nm] } catch (e) { continue } if (typeof f === 'function') fns.push(nm) } "
                "for (var i=0;i<fns.length;i++) { var nm = fns[i]; "
                "for (var a=-1;a<A.length;a++) for (var b=-1;b<(a<0?0:A.length);b++) { "
-               "var R2 = %s; try { var r = (a<0) ? R2[nm]() : (b<0) ? R2[nm](A[a]) : R2[nm](A[a], A[b]); __kind(nm, r) } catch (e) { __kind(nm, e) } } } fns.length"
+               "var R2 = %s; try { var r = (a<0) ? R2[nm]() : (b<0) ? R2[nm](A[a]) : R2[nm](A[a], A[b]); __kind(nm, r) } catch (e) { __kind(nm, e) } } "
+               # the same function installed as an accessor and as a conversion method: what a read / write / conversion yields
+               "try { var h = {}; Object.defineProperty(h, 'p', {get: R[nm], set: R[nm]}); __kind(nm + ' as getter', h.p); __kind(nm + ' as setter', (h.p = 1)) } catch (e) { __kind(nm + ' as accessor', e) } "
+               "try { var h2 = {valueOf: R[nm], toString: R[nm]}; __kind(nm + ' as valueOf', +h2); __kind(nm + ' as toString', '' + h2) } catch (e) { __kind(nm + ' as conversion', e) } "
+               "} fns.length"
                % (RECV[recv], ",".join(ARGS), RECV[recv]))
         out = api.eval_outcome(ctx, src, wall=60.0, cap=30_000_000)
         return [{"id": "callgrid:%s" % recv, "kind": "trace", "seen": [{"k": kk, "at": tag} for (tag, kk) in sorted(kinds)],
